@@ -1,16 +1,27 @@
-"""Fail-closed translator for the iterative prefix ("slugsin") translator
+"""Fail-closed translator for the two prefix ("slugsin") translators
 (tie T for C17):
 
     omega/symbolic/bdd_iterative.py : Parser.parse, Parser._increase,
                                       Parser._push, Parser._reduce, add_expr
     omega/symbolic/bdd.py           : the literal token rules of class Lexer
                                       (table `lexer_table`)
+                                                      -> coq/gen/PrefixGen.v
+    omega/symbolic/bdd.py           : Parser.parse, Parser._recurse, add_expr,
+                                      the `flatten` methods of the node
+                                      classes built by Parser(nodes=BDDNodes())
+    omega/logic/ast.py              : the constructors those classes inherit
+                                                      -> coq/gen/PrefixRecGen.v
+      (class RecTranslator below: node classes as constructors of `pnode`,
+       `x.flatten(...)` as dynamic dispatch with the keyword / default / **kw
+       protocol as a record of optional slots, list comprehensions as loops,
+       the block ending in bdd.rename matched literally)
 
 Like py2coq.py it reads the CURRENT source text with `ast` (never imports
 omega), compiles statements in continuation style and raises `Refuse` on
-anything outside the subset below.  Output: coq/gen/PrefixGen.v, related to
-the hand-written model (theories/L3History/Prefix.v) in
-coq/GenProofs/PrefixBridge.v on every run.
+anything outside the subset below.  Output: coq/gen/PrefixGen.v and
+coq/gen/PrefixRecGen.v, related to the hand-written models
+(theories/L3History/Prefix.v) in coq/GenProofs/PrefixBridge.v and
+coq/GenProofs/PrefixRecBridge.v on every run.
 
 Values and their Gallina types (a kind error is a refusal)
 
@@ -74,7 +85,8 @@ from py2coq import Refuse, _src, _dotted
 ITER_SRC = 'omega/symbolic/bdd_iterative.py'
 LEX_SRC = 'omega/symbolic/bdd.py'
 
-IMMUTABLE = ('int', 'bool', 'str', 'node', 'item', 'tok', 'otok', 'none')
+IMMUTABLE = ('int', 'bool', 'str', 'node', 'item', 'tok', 'otok', 'none',
+             'pnode')
 TOKENS = ('list', 'tok')
 
 
@@ -106,7 +118,8 @@ def coq_type(k):
             return f'({coq_type(k[1])} * {coq_type(k[2])})'
     try:
         return {'int': 'Z', 'bool': 'bool', 'str': 'string', 'node': 'D',
-                'item': 'item', 'tok': 'ptok', 'otok': '(option ptok)'}[k]
+                'item': 'item', 'tok': 'ptok', 'otok': '(option ptok)',
+                'pnode': 'pnode'}[k]
     except (KeyError, TypeError):
         raise Refuse(f'no Gallina type for kind {k}')
 
@@ -406,6 +419,10 @@ class Translator:
             if isinstance(st, ast.Import):
                 for a in st.names:
                     self.imports[a.asname or a.name] = a.name
+            elif isinstance(st, ast.ImportFrom):
+                for a in st.names:
+                    self.imports[a.asname or a.name] = \
+                        f'{st.module}.{a.name}'
             elif isinstance(st, ast.Assign) and len(st.targets) == 1 and \
                     isinstance(st.targets[0], ast.Name):
                 n = st.targets[0].id
@@ -415,7 +432,7 @@ class Translator:
                 elif isinstance(st.value, ast.Call) and \
                         isinstance(st.value.func, ast.Name) and \
                         st.value.func.id == self.cls and \
-                        not st.value.args and not st.value.keywords:
+                        self.instance_ok(st.value):
                     self.instances[n] = self.cls
             elif isinstance(st, ast.ClassDef) and st.name == self.cls:
                 cls = st
@@ -471,6 +488,13 @@ class Translator:
             f.order = self._order(node, names)
             self.funcs[name] = f
 
+    def instance_ok(self, call):
+        return not call.args and not call.keywords
+
+    def init_stmt(self, st):
+        """Hook: further statements accepted in __init__."""
+        return False
+
     def _init(self, node):
         """Parser.__init__ is not translated; it may only build the lexer and
         constant sets."""
@@ -500,7 +524,7 @@ class Translator:
                         self.consts[d] = ('c' + d[5:] if d[5] == '_'
                                           else 'c_' + d[5:], ss)
                         ok = True
-            if not ok:
+            if not ok and not self.init_stmt(st):
                 raise Refuse(f'__init__: `{_src(st)}`')
         if self.lexer_module is None:
             raise Refuse('__init__ does not build self.lexer = Lexer()')
@@ -1782,6 +1806,744 @@ def translate(repo):
     return body, table, notes
 
 
+# ====================================================== recursive translator
+REC_SRC = 'omega/symbolic/bdd.py'
+AST_SRC = 'omega/logic/ast.py'
+# keyword arguments of the `flatten` methods: name -> kind
+KW_SLOTS = [('bdd', 'mgr'), ('mem', ('olist', 'node')), ('same_mem', 'bool')]
+FIELD_KINDS = {'type': 'str', 'operator': 'str', 'value': 'str',
+               'operands': ('list', 'pnode'), 'memory': ('list', 'pnode')}
+# the two external base classes (package astutils): what __init__ stores
+EXTERNAL_INIT = {
+    'object': ([], {}, None, []),
+    'astutils.Terminal': (['value', 'dtype'], {'dtype': ('const', 'terminal')},
+                          None, [('type', 'dtype'), ('value', 'value')]),
+    'astutils.Operator': (['operator'], {}, 'operands',
+                          [('type', ('const', 'operator')),
+                           ('operator', 'operator'),
+                           ('operands', 'operands')]),
+}
+RENAME_BLOCK = """
+MV_m = [MV_bdd.support(MV_u).pop() for MV_u in MV_m]
+MV_rn = {MV_a: MV_b for MV_a, MV_b in zip(MV_m[1::2], MV_m[0::2])}
+assert 2 * len(MV_rn) == len(MV_pairs.memory), (MV_rn, MV_pairs.memory)
+MV_r = MV_bdd.rename(MV_operand, MV_rn)
+"""
+
+
+def unify(t, x, b):
+    """Match AST x against template t; names MV_* are metavariables."""
+    if isinstance(t, ast.Name) and t.id.startswith('MV_'):
+        if not isinstance(x, ast.Name):
+            return False
+        if t.id in b:
+            return b[t.id] == x.id
+        b[t.id] = x.id
+        return True
+    if type(t) is not type(x):
+        return False
+    if isinstance(t, ast.AST):
+        for f in t._fields:
+            if f in ('ctx', 'type_comment', 'kind'):
+                continue
+            if not unify(getattr(t, f, None), getattr(x, f, None), b):
+                return False
+        return True
+    if isinstance(t, list):
+        return len(t) == len(x) and all(unify(a, c, b) for a, c in zip(t, x))
+    return t == x
+
+
+class RecTranslator(Translator):
+    def __init__(self, tree, ast_tree, sigs, coq_prefix):
+        self.ast_tree = ast_tree
+        self.nodes_class = None
+        self.nlc = 0
+        self.pre_notes = []
+        for fn in ast.walk(tree):
+            if isinstance(fn, ast.FunctionDef):
+                self.rename_block(fn)
+                self.desugar(fn)
+        super().__init__(tree, sigs, coq_prefix)
+        self.notes += self.pre_notes
+        self.node_classes()
+
+    # -------------------------------------------------------- preprocessing
+    def rename_block(self, fn):
+        tmpl = ast.parse(RENAME_BLOCK).body
+
+        def walk(body):
+            for i in range(len(body)):
+                b = {}
+                if i + len(tmpl) <= len(body) and \
+                        unify(tmpl, body[i:i + len(tmpl)], b):
+                    new = ast.parse(
+                        f'{b["MV_r"]} = {b["MV_bdd"]}.__rename_pairs__('
+                        f'{b["MV_m"]}, {b["MV_pairs"]}.memory, '
+                        f'{b["MV_operand"]})').body[0]
+                    ast.copy_location(new, body[i])
+                    for n in ast.walk(new):
+                        ast.copy_location(n, body[i])
+                    self.pre_notes.append(
+                        f'{fn.name}: lines {body[i].lineno}-'
+                        f'{body[i + len(tmpl) - 1].lineno} (support of each '
+                        'node popped, dict of pairs, assert on the number of '
+                        'pairs, bdd.rename) matched literally: the abstract '
+                        'operation ren_pairs of the memory, the number of '
+                        'cells of the buffer and the operand')
+                    body[i:i + len(tmpl)] = [new]
+                    return walk(body)
+            for st in body:
+                for f in ('body', 'orelse'):
+                    if isinstance(getattr(st, f, None), list):
+                        walk(getattr(st, f))
+        walk(fn.body)
+
+    def desugar(self, fn):
+        """x = [E for v in IT]  ->  x = list(); for v' in IT: x.append(E')."""
+        def walk(body):
+            i = 0
+            while i < len(body):
+                st = body[i]
+                if isinstance(st, ast.Assign) and len(st.targets) == 1 and \
+                        isinstance(st.targets[0], ast.Name) and \
+                        isinstance(st.value, ast.ListComp):
+                    lc = st.value
+                    tgt = st.targets[0].id
+                    if len(lc.generators) != 1 or lc.generators[0].ifs or \
+                            lc.generators[0].is_async or \
+                            not isinstance(lc.generators[0].target, ast.Name):
+                        raise Refuse(f'{fn.name}: `{_src(st)}`')
+                    g = lc.generators[0]
+                    if tgt in reads(g.iter) | reads(lc.elt):
+                        raise Refuse(f'{fn.name}: `{_src(st)}` reads its '
+                                     'own target')
+                    self.nlc += 1
+                    v = f'{g.target.id}__lc{self.nlc}'
+
+                    class Ren(ast.NodeTransformer):
+                        def visit_Name(s2, n):
+                            if n.id == g.target.id:
+                                return ast.copy_location(
+                                    ast.Name(id=v, ctx=n.ctx), n)
+                            return n
+                    elt = Ren().visit(lc.elt)
+                    src = (f'{tgt} = list()\nfor {v} in {_src(g.iter)}:\n'
+                           f'    {tgt}.append({_src(elt)})\n')
+                    new = ast.parse(src).body
+                    for n2 in new:
+                        for n in ast.walk(n2):
+                            ast.copy_location(n, st)
+                    body[i:i + 1] = new
+                    i += 2
+                    continue
+                for f in ('body', 'orelse'):
+                    if isinstance(getattr(st, f, None), list):
+                        walk(getattr(st, f))
+                i += 1
+        walk(fn.body)
+
+    # ------------------------------------------------------------ collection
+    def instance_ok(self, call):
+        if call.args or len(call.keywords) != 1:
+            return False
+        kw = call.keywords[0]
+        if kw.arg == 'nodes' and isinstance(kw.value, ast.Call) and \
+                isinstance(kw.value.func, ast.Name) and \
+                not kw.value.args and not kw.value.keywords:
+            self.nodes_class = kw.value.func.id
+            return True
+        return False
+
+    def init_stmt(self, st):
+        if isinstance(st, ast.If) and not st.orelse and \
+                _src(st.test) == 'nodes is None' and len(st.body) == 1 and \
+                re.fullmatch(r'nodes = \w+\(\)', _src(st.body[0])):
+            return True
+        return isinstance(st, ast.Assign) and _src(st) == 'self.nodes = nodes'
+
+    def containers(self):
+        out = {c.name: c for c in self.tree.body
+               if isinstance(c, ast.ClassDef)}
+        for alias, full in self.imports.items():
+            if full == 'omega.logic.ast.Nodes':
+                for c in self.ast_tree.body:
+                    if isinstance(c, ast.ClassDef) and c.name == 'Nodes':
+                        out[alias] = c
+        return out
+
+    def container_chain(self, name, cs):
+        chain = []
+        while True:
+            c = cs.get(name)
+            if c is None:
+                raise Refuse(f'class {name} not found')
+            chain.append((name, c))
+            if not c.bases:
+                return chain
+            if len(c.bases) != 1 or not isinstance(c.bases[0], ast.Name):
+                raise Refuse(f'class {name}: bases')
+            name = c.bases[0].id
+
+    def inner_chain(self, container, cname, cs):
+        """Linearised single-inheritance chain of the node class
+        `container.cname`: [(where, ClassDef)] ending with an external
+        'astutils.X'."""
+        chain = []
+        where, name = container, cname
+        for _ in range(10):
+            found = None
+            for (cn, c) in self.container_chain(where, cs):
+                for st in c.body:
+                    if isinstance(st, ast.ClassDef) and st.name == name:
+                        found = (cn, st)
+                        break
+                    if isinstance(st, ast.Assign) and \
+                            _src(st.targets[0]) == name and \
+                            (_dotted(st.value) or '').startswith('astutils.'):
+                        return chain + [(_dotted(st.value), None)]
+                if found:
+                    break
+            if not found:
+                raise Refuse(f'node class {where}.{name} not found')
+            chain.append(found)
+            bases = found[1].bases
+            if not bases:
+                return chain + [('object', None)]
+            if len(bases) != 1:
+                raise Refuse(f'node class {found[0]}.{name}: bases')
+            d = _dotted(bases[0]) or ''
+            if d.startswith('astutils.'):
+                return chain + [(d, None)]
+            if d.count('.') != 1:
+                raise Refuse(f'node class {found[0]}.{name}: base `{d}`')
+            where, name = d.split('.')
+        raise Refuse(f'node class {container}.{cname}: inheritance too deep')
+
+    def init_fields(self, chain, k, args):
+        """Fields stored by the __init__ found from position k of the chain,
+        called with symbolic positional arguments args; a symbolic value is
+        ('arg', i) | ('const', s) | ('varargs', i)."""
+        while True:
+            where, c = chain[k]
+            if c is None:
+                if where not in EXTERNAL_INIT:
+                    raise Refuse(f'external class {where}')
+                params, defaults, vararg, stores = EXTERNAL_INIT[where]
+                env = {}
+                for j, pn in enumerate(params):
+                    if j < len(args) and args[j][0] != 'varargs':
+                        env[pn] = args[j]
+                    elif pn in defaults:
+                        env[pn] = defaults[pn]
+                    else:
+                        raise Refuse(f'{where}.__init__: argument {pn}')
+                if vararg:
+                    rest = args[len(params):]
+                    if len(rest) != 1 or rest[0][0] != 'varargs':
+                        raise Refuse(f'{where}.__init__: *{vararg}')
+                    env[vararg] = rest[0]
+                elif len(args) > len(params):
+                    raise Refuse(f'{where}.__init__: too many arguments')
+                return [(f, env[v] if isinstance(v, str) else v)
+                        for f, v in stores]
+            init = [m for m in c.body if isinstance(m, ast.FunctionDef)
+                    and m.name == '__init__']
+            if init:
+                break
+            k += 1
+        fn = init[0]
+        a = fn.args
+        if a.kwarg or a.kwonlyargs or a.posonlyargs:
+            raise Refuse(f'{where}.{c.name}.__init__: signature')
+        names = [x.arg for x in a.args][1:]
+        env = {}
+        nd = len(a.defaults)
+        for j, pn in enumerate(names):
+            if j < len(args) and args[j][0] != 'varargs':
+                env[pn] = args[j]
+            elif j >= len(names) - nd:
+                d = a.defaults[j - (len(names) - nd)]
+                if not (isinstance(d, ast.Constant)
+                        and isinstance(d.value, str)):
+                    raise Refuse(f'{c.name}.__init__: default of {pn}')
+                env[pn] = ('const', d.value)
+            else:
+                raise Refuse(f'{c.name}.__init__: argument {pn}')
+        if a.vararg:
+            rest = args[len(names):]
+            if len(rest) != 1 or rest[0][0] != 'varargs':
+                raise Refuse(f'{c.name}.__init__: *{a.vararg.arg}')
+            env[a.vararg.arg] = rest[0]
+        elif len(args) > len(names):
+            raise Refuse(f'{c.name}.__init__: too many arguments')
+
+        def sym(e):
+            if isinstance(e, ast.Name) and e.id in env:
+                return env[e.id]
+            if isinstance(e, ast.Constant) and isinstance(e.value, str):
+                return ('const', e.value)
+            if isinstance(e, ast.Starred):
+                return sym(e.value)
+            raise Refuse(f'{c.name}.__init__: `{_src(e)}`')
+        fields = []
+        for st in fn.body:
+            if isinstance(st, ast.Expr) and isinstance(st.value, ast.Constant):
+                continue
+            if isinstance(st, ast.Expr) and isinstance(st.value, ast.Call) \
+                    and _src(st.value.func) == 'super().__init__' \
+                    and not st.value.keywords:
+                sub = self.init_fields(chain, k + 1,
+                                       [sym(x) for x in st.value.args])
+                fields = [f for f in fields
+                          if f[0] not in dict(sub)] + sub
+                continue
+            if isinstance(st, ast.Assign) and len(st.targets) == 1 and \
+                    (_dotted(st.targets[0]) or '').startswith('self.') and \
+                    _dotted(st.targets[0]).count('.') == 1:
+                f = _dotted(st.targets[0])[5:]
+                fields = [x for x in fields if x[0] != f] + [(f, sym(st.value))]
+                continue
+            raise Refuse(f'{c.name}.__init__: `{_src(st)}`')
+        return fields
+
+    def node_classes(self):
+        """Classes of the nodes the parser builds (`self.nodes.X(...)`)."""
+        if self.nodes_class is None:
+            raise Refuse('parser = Parser(nodes=...) not found')
+        cs = self.containers()
+        used = []
+        for f in self.funcs.values():
+            for x in ast.walk(f.node):
+                if isinstance(x, ast.Call) and \
+                        (_dotted(x.func) or '').startswith('self.nodes.'):
+                    n = _dotted(x.func)[11:]
+                    nargs = len(x.args)
+                    if (n, nargs) not in used:
+                        used.append((n, nargs))
+        self.classes = {}
+        for n, nargs in used:
+            chain = self.inner_chain(self.nodes_class, n, cs)
+            # the constructor: positional arguments, operands as varargs
+            ext = chain[-1][0]
+            if ext == 'astutils.Operator' and not any(
+                    c is not None and any(
+                        isinstance(m, ast.FunctionDef) and m.name == '__init__'
+                        for m in c.body) for (_, c) in chain):
+                args = [('arg', 0), ('varargs', 1)]
+            else:
+                args = [('arg', j) for j in range(nargs)]
+            fields = self.init_fields(chain, 0, args)
+            for fname, v in fields:
+                if fname not in FIELD_KINDS:
+                    raise Refuse(f'node class {n}: field {fname}')
+            ty = dict(fields).get('type')
+            if ty is None or ty[0] != 'const':
+                raise Refuse(f'node class {n}: .type is not a constant')
+            stored = [(fname, v) for fname, v in fields if fname != 'type']
+            stored.sort(key=lambda fv: fv[1][1])
+            if [v for _, v in stored] not in (
+                    [('arg', 0)], [('arg', 0), ('varargs', 1)]):
+                raise Refuse(f'node class {n}: constructor arguments '
+                             f'{stored}')
+            old = self.classes.get(n)
+            meth = None
+            for (where, c) in chain:
+                if c is None:
+                    break
+                ms = [m for m in c.body if isinstance(m, ast.FunctionDef)
+                      and m.name == 'flatten']
+                if ms:
+                    meth = (where, ms[0])
+                    break
+            info = dict(type=ty[1], fields=[fn_ for fn_, _ in stored],
+                        varargs=stored[-1][1][0] == 'varargs', flatten=meth,
+                        chain=[w if c is None else f'{w}.{c.name}'
+                               for (w, c) in chain])
+            if old is not None and old != info:
+                raise Refuse(f'node class {n}: used with different arities')
+            self.classes[n] = info
+        self.note('node classes (constructor fields read from the __init__ '
+                  'methods; astutils.Terminal/Operator as documented): '
+                  + '; '.join(f'{n} = {" < ".join(i["chain"])}, .type '
+                              f'{i["type"]!r}, flatten of '
+                              f'{i["flatten"][0] if i["flatten"] else "?"}'
+                              for n, i in self.classes.items()))
+
+    def pnode_text(self):
+        lines = ['Inductive pnode :=']
+        for n, i in self.classes.items():
+            fs = ' '.join(f'({f} : {coq_type(FIELD_KINDS[f])})'
+                          for f in i['fields'])
+            lines.append(f'| N{n} {fs}')
+        out = '\n'.join(lines) + '.\n\n'
+        allf = []
+        for i in self.classes.values():
+            for f in i['fields']:
+                if f not in allf:
+                    allf.append(f)
+        out += ('(* x.type *)\nDefinition n_type (x : pnode) : string :=\n'
+                '  match x with\n')
+        for n, i in self.classes.items():
+            us = ' '.join('_' for _ in i['fields'])
+            out += f'  | N{n} {us} => {strlit(i["type"])}\n'
+        out += '  end.\n'
+        for f in allf:
+            out += (f'(* x.{f}; AttributeError = None *)\n'
+                    f'Definition n_{f} (x : pnode) : option '
+                    f'{coq_type(FIELD_KINDS[f])} :=\n  match x with\n')
+            some = False
+            for n, i in self.classes.items():
+                if f in i['fields']:
+                    us = ' '.join('v' if g == f else '_' for g in i['fields'])
+                    out += f'  | N{n} {us} => Some v\n'
+                else:
+                    some = True
+            if some:
+                out += '  | _ => None\n'
+            out += '  end.\n'
+        return out
+
+    # ---------------------------------------------------------- expressions
+    cur_cls = None
+    meth = None
+
+    def ev(self, x, env, k, stmt=False):
+        f = self.cur
+        if isinstance(x, ast.Attribute) and x.attr in FIELD_KINDS and \
+                isinstance(x.value, ast.Name):
+            if x.value.id == 'self' and self.cur_cls is not None:
+                info = self.classes[self.cur_cls]
+                if x.attr == 'type':
+                    return k(Val('str', strlit(info['type'])), env)
+                if x.attr in info['fields']:
+                    return k(Val(FIELD_KINDS[x.attr], f's_{x.attr}'), env)
+                return 'None'          # AttributeError
+            b = env.vars.get(x.value.id)
+            if b is not None and b.kind == 'pnode':
+                def after(v, e):
+                    if x.attr == 'type':
+                        return k(Val('str', f'(n_type {v.code})'), e)
+                    t = self.tmp()
+                    return bind(f'(n_{x.attr} {v.code})', t,
+                                k(Val(FIELD_KINDS[x.attr], t), e))
+                return Translator.ev(self, x.value, env, after)
+        return Translator.ev(self, x, env, k, stmt)
+
+    def is_pure(self, e, env):
+        if isinstance(e, ast.Attribute) and isinstance(e.value, ast.Name) \
+                and e.value.id == 'self' and self.cur_cls is not None \
+                and e.attr in FIELD_KINDS:
+            return e.attr == 'type' or \
+                e.attr in self.classes[self.cur_cls]['fields']
+        return Translator.is_pure(self, e, env)
+
+    def iterable(self, it, env, k):
+        if isinstance(it, ast.Attribute):
+            def after(v, e):
+                return self.as_list(
+                    v, e, lambda l, e1: k(l, e1, None), 'iteration')
+            return self.ev(it, env, after)
+        return Translator.iterable(self, it, env, k)
+
+    def call(self, x, env, k, stmt):
+        f = self.cur
+        d = _dotted(x.func) or ''
+        if d.startswith('self.nodes.') and d.count('.') == 2 and \
+                f.is_method and self.cur_cls is None:
+            return self.construct(d[11:], x, env, k)
+        if isinstance(x.func, ast.Attribute) and x.func.attr == 'flatten':
+            return self.dispatch(x, env, k)
+        return Translator.call(self, x, env, k, stmt)
+
+    def construct(self, n, x, env, k):
+        f = self.cur
+        info = self.classes.get(n)
+        if info is None or x.keywords or \
+                any(isinstance(a, ast.Starred) for a in x.args):
+            raise Refuse(f'{f.name}: `{_src(x)}`')
+
+        def after(vs, e):
+            fk = FIELD_KINDS[info['fields'][0]]
+            if info['varargs']:
+                if len(vs) < 1:
+                    raise Refuse(f'{f.name}: `{_src(x)}`')
+                first = coerce(vs[0], fk, 'constructor argument')
+                rest = [coerce(v, 'pnode', 'operand') for v in vs[1:]]
+                return k(Val('pnode', f'(N{n} {first} ['
+                             + '; '.join(rest) + '])'), e)
+            if len(vs) != 1:
+                raise Refuse(f'{f.name}: `{_src(x)}`')
+            v = vs[0]
+            if is_list(fk):
+                # the node keeps the list itself: the variable is dead after
+                if not isinstance(x.args[0], ast.Name) or \
+                        v.kind not in (fk, ('list', None)):
+                    raise Refuse(f'{f.name}: `{_src(x)}`: kind {v.kind}')
+                e = e.copy()
+                e.vars.pop(x.args[0].id, None)
+                return k(Val('pnode', f'(N{n} {v.code})'), e)
+            return k(Val('pnode', f'(N{n} '
+                         f'{coerce(v, fk, "constructor argument")})'), e)
+        return self.evs(list(x.args), env, after)
+
+    def dispatch(self, x, env, k):
+        """X.flatten(key=value, ..., *arg, **kw)."""
+        f = self.cur
+        for a in x.args:
+            if not (isinstance(a, ast.Starred) and isinstance(a.value, ast.Name)
+                    and a.value.id in env.vars
+                    and env.vars[a.value.id].kind == 'noargs'):
+                raise Refuse(f'{f.name}: `{_src(x)}`: positional argument')
+        explicit = [(kw.arg, kw.value) for kw in x.keywords
+                    if kw.arg is not None]
+        fwd = [kw.value for kw in x.keywords if kw.arg is None]
+        if len(fwd) > 1 or (fwd and not (
+                isinstance(fwd[0], ast.Name) and fwd[0].id in env.vars
+                and env.vars[fwd[0].id].kind == 'kw')):
+            raise Refuse(f'{f.name}: `{_src(x)}`: ** argument')
+        slots = dict(KW_SLOTS)
+        names = [n for n, _ in explicit]
+        if len(set(names)) != len(names) or any(n not in slots for n in names):
+            raise Refuse(f'{f.name}: `{_src(x)}`: keywords {names}')
+        memvar = None
+        for n, v in explicit:
+            if is_list(slots[n]):
+                if isinstance(v, ast.Name) and v.id in env.vars:
+                    memvar = v.id
+                elif not (isinstance(v, ast.Constant) and v.value is None):
+                    raise Refuse(f'{f.name}: `{_src(x)}`: `{n}=` is not a '
+                                 'variable')
+
+        def after(vs, e):
+            obj, vals = vs[0], dict(zip(names, vs[1:]))
+            if obj.kind != 'pnode':
+                raise Refuse(f'{f.name}: `{_src(x)}`: receiver of kind '
+                             f'{obj.kind}')
+            kwv = e.vars[fwd[0].id].coq if fwd else None
+            parts, dups = [], []
+            for n, kd in KW_SLOTS:
+                if n in vals:
+                    v = vals[n]
+                    if kd == 'mgr':
+                        if v.kind != 'mgr':
+                            raise Refuse(f'{f.name}: `{_src(x)}`: {n}')
+                        parts.append('true')
+                        if kwv:
+                            dups.append(f'(k_{n} {kwv})')
+                    else:
+                        parts.append(f'(Some {coerce(v, kd, n)})')
+                        if kwv:
+                            dups.append(f'(negb (is_none (k_{n} {kwv})))')
+                elif kwv:
+                    parts.append(f'(k_{n} {kwv})')
+                else:
+                    parts.append('false' if kd == 'mgr' else 'None')
+            e = e.copy()
+            t, m = self.tmp(), self.tmp()
+            after_code = ''
+            if memvar is not None:
+                b = e.vars[memvar]
+                if b.maybe:
+                    raise Refuse(f'{f.name}: `{_src(x)}`: {memvar}')
+                if memvar in getattr(self, 'iterating', ()):
+                    raise Refuse(f'{f.name}: `{memvar}` changed while '
+                                 'iterated')
+                old = coerce(Val(b.kind, b.coq), slots['mem'], memvar)
+                e.vars[memvar] = Bind(slots['mem'], f'v_{memvar}')
+                after_code = (f'let v_{memvar} := match {m} with Some m_ '
+                              f'=> m_ | None => {old} end in\n')
+            elif kwv:
+                after_code = f'let {kwv} := kw_set_mem {kwv} {m} in\n'
+            body = bind(f'({self.prefix}flatten fuel {obj.code} (mkKw '
+                        + ' '.join(parts) + '))', f"'({t}, {m})",
+                        after_code + k(Val('node', t), e))
+            if dups:        # TypeError: multiple values for a keyword
+                return ite(' || '.join(dups), 'None', body)
+            return body
+        return self.evs([x.func.value] + [v for _, v in explicit], env, after)
+
+    def assigned_in(self, st):
+        out = Translator.assigned_in(self, st)
+        for x in ast.walk(st):
+            if isinstance(x, ast.Call) and isinstance(x.func, ast.Attribute) \
+                    and x.func.attr == 'flatten':
+                lists = [kw.value.id for kw in x.keywords
+                         if kw.arg is not None
+                         and is_list(dict(KW_SLOTS).get(kw.arg))
+                         and isinstance(kw.value, ast.Name)]
+                out |= set(lists)
+                if not lists:       # the list travels inside **kw
+                    out |= {kw.value.id for kw in x.keywords
+                            if kw.arg is None
+                            and isinstance(kw.value, ast.Name)}
+        return out
+
+    def mgr_call(self, x, env, k):
+        f = self.cur
+        m = x.func.attr
+        if m == '__rename_pairs__' and len(x.args) == 3:
+            def after(vs, e):
+                def on_list(l, e1):
+                    if vs[1].kind != ('list', 'pnode') or \
+                            vs[2].kind != 'node' or l.kind[1] != 'node':
+                        raise Refuse(f'{f.name}: rename block: kinds')
+                    t = self.tmp()
+                    return bind(f'(ren_pairs {l.code} (py_len {vs[1].code}) '
+                                f'{vs[2].code})', t, k(Val('node', t), e1))
+                return self.as_list(vs[0], e, on_list, 'rename block')
+            return self.evs(list(x.args), env, after)
+        if m == 'apply' and len(x.args) == 2 and \
+                isinstance(x.args[1], ast.Starred):
+            def after(vs, e):
+                if vs[0].kind != 'str' or vs[1].kind != ('list', 'node'):
+                    raise Refuse(f'{f.name}: `{_src(x)}`: kinds '
+                                 f'{vs[0].kind}, {vs[1].kind}')
+                t = self.tmp()
+                return bind(f'(bdd_apply_nodes {vs[0].code} {vs[1].code})',
+                            t, k(Val('node', t), e))
+            return self.evs([x.args[0], x.args[1].value], env, after)
+        return Translator.mgr_call(self, x, env, k)
+
+    def ret(self, v, env):
+        if self.cur_cls is None:
+            return Translator.ret(self, v, env)
+        parts = [coerce(v, 'node', 'returned value')]
+        named, kwname = self.meth
+        if 'mem' in named:
+            b = env.frozen.get('mem') or env.vars.get('mem')
+            if b is None or b.maybe:
+                raise Refuse(f'{self.cur.name}: parameter mem lost')
+            parts.append('(Some ' + coerce(Val(b.kind, b.coq),
+                                           dict(KW_SLOTS)['mem'], 'mem') + ')')
+        elif kwname is not None:
+            parts.append(f'(k_mem {env.vars[kwname].coq})')
+        else:
+            parts.append('None')
+        return f'Some {tuple_of(parts)}'
+
+    # -------------------------------------------------------------- methods
+    def compile_method(self, cname):
+        info = self.classes[cname]
+        if info['flatten'] is None:
+            self.note(f'node class {cname} has no flatten method: None')
+            return 'None'
+        where, fn = info['flatten']
+        a = fn.args
+        if a.kwonlyargs or a.posonlyargs or fn.decorator_list:
+            raise Refuse(f'{cname}.flatten: signature')
+        names = [z.arg for z in a.args]
+        if not names or names[0] != 'self':
+            raise Refuse(f'{cname}.flatten: first parameter is not self')
+        names = names[1:]
+        nd = len(a.defaults)
+        slots = dict(KW_SLOTS)
+        g = Func(f'{cname}.flatten', fn, [], 'node', self.prefix + 'flatten',
+                 True)
+        g.order = self._order(fn, names + ([a.kwarg.arg] if a.kwarg else []))
+        self.cur, self.cur_cls = g, cname
+        self.meth = (names, a.kwarg.arg if a.kwarg else None)
+        self.ntmp = 0
+        env = Env()
+        wraps = []
+        for j, pn in enumerate(names):
+            if pn not in slots:
+                raise Refuse(f'{cname}.flatten: parameter {pn} is not a '
+                             'known keyword')
+            kd = slots[pn]
+            dflt = a.defaults[j - (len(names) - nd)] \
+                if j >= len(names) - nd else None
+            if kd == 'mgr':
+                if dflt is not None:
+                    raise Refuse(f'{cname}.flatten: default of {pn}')
+                env.vars[pn] = Bind('mgr', '')
+                wraps.append(lambda body, pn=pn:
+                             ite(f'k_{pn} kw_', body, 'None'))
+                continue
+            env.vars[pn] = Bind(kd, f'v_{pn}')
+            if is_list(kd):
+                env.alias.add(pn)
+            if dflt is None:          # TypeError when missing
+                wraps.append(lambda body, pn=pn: match(
+                    f'k_{pn} kw_', [(f'Some v_{pn}', body), ('None', 'None')]))
+                continue
+            if not isinstance(dflt, ast.Constant) or \
+                    dflt.value not in (None, True, False):
+                raise Refuse(f'{cname}.flatten: default of {pn}')
+            dv = {None: 'None', True: 'true', False: 'false'}[dflt.value]
+            if (dflt.value is None) != is_list(kd):
+                raise Refuse(f'{cname}.flatten: default of {pn}')
+            wraps.append(lambda body, pn=pn, dv=dv: let(
+                f'v_{pn}', f'match k_{pn} kw_ with Some x_ => x_ | None => '
+                f'{dv} end', body))
+        rest = ' '.join(('false' if kd == 'mgr' else 'None') if n in names
+                        else f'(k_{n} kw_)' for n, kd in KW_SLOTS)
+        if a.kwarg:
+            env.vars[a.kwarg.arg] = Bind('kw', f'v_{a.kwarg.arg}')
+            wraps.append(lambda body: let(f'v_{a.kwarg.arg}',
+                                          f'mkKw {rest}', body))
+        else:                          # unexpected keyword: TypeError
+            wraps.append(lambda body: ite(f'kw_is_empty (mkKw {rest})',
+                                          body, 'None'))
+        if a.vararg:
+            env.vars[a.vararg.arg] = Bind('noargs', '')
+        live_block(fn.body, set(), None, None)
+
+        def fall(env):
+            raise Refuse(f'{cname}.flatten: control may reach the end '
+                         'without return')
+        body = self.block(fn.body, 0, env, fall, None)
+        for w in reversed(wraps):
+            body = w(body)
+        self.cur_cls, self.meth = None, None
+        return body
+
+    def translate(self):
+        body = Translator.translate(self)
+        LENIENT[0] = False
+        self.aux = []
+        branches = []
+        for n, i in self.classes.items():
+            pat = f'N{n} ' + ' '.join(f's_{f}' for f in i['fields'])
+            branches.append((pat, self.compile_method(n)))
+        if self.aux:
+            raise Refuse('while loop inside a flatten method')
+        fl = (f'Fixpoint {self.prefix}flatten (fuel : nat) (v_self : pnode) '
+              '(kw_ : kwargs) {struct fuel}\n    : option (D * option '
+              '(option (list D))) :=\n  match fuel with\n  | O => None\n'
+              '  | S fuel =>\n' + indent(match('v_self', branches), 4)
+              + '\n  end.\n\n')
+        # constants used by the methods were collected after emit()
+        consts = []
+        for d in self.used_consts:
+            c, ss = self.consts[d]
+            line = (f'Definition {c} : list string := ['
+                    + '; '.join(strlit(z) for z in ss) + '].')
+            if line not in body:
+                consts.append(line)
+        return ('\n'.join(consts) + ('\n' if consts else '')) + fl + body
+
+
+SIGS_REC = {
+    'parse': dict(params=[TOKENS], ret='pnode'),
+    '_recurse': dict(params=[], ret='pnode'),
+    'add_expr': dict(params=[TOKENS, 'mgr'], ret='node', module=True),
+}
+
+
+def translate_rec(repo):
+    """(pnode declarations, Section body, notes) for omega/symbolic/bdd.py."""
+    with open(os.path.join(repo, REC_SRC)) as fh:
+        tree = ast.parse(fh.read())
+    with open(os.path.join(repo, AST_SRC)) as fh:
+        atree = ast.parse(fh.read())
+    tr = RecTranslator(tree, atree, SIGS_REC, 'rc_')
+    if tr.lexer_module != '':
+        raise Refuse('the lexer of bdd.Parser is not bdd.Lexer')
+    body = tr.translate()
+    return tr.pnode_text(), body, list(tr.notes)
+
+
 HEADER = r'''(* GENERATED by tools/py2coq_prefix.py from
      omega/symbolic/bdd_iterative.py : Parser.parse, _increase, _push,
                                        _reduce, add_expr, and the constant
@@ -1940,6 +2702,78 @@ Definition bdd_apply (op : string) (args : list item) : option D :=
 FOOTER = '\nEnd Gen.\n'
 
 
+HEADER_REC = r"""(* GENERATED by tools/py2coq_prefix.py from
+     omega/symbolic/bdd.py   : Parser.parse, Parser._recurse, add_expr, and
+                               the `flatten` methods of the node classes that
+                               `parser = Parser(nodes=BDDNodes())` builds
+                               (BDDNodes.Operator/Var/Num, Nodes.Buffer/
+                               Register); the constructors of those classes
+                               are read from the __init__ methods of bdd.py
+                               and omega/logic/ast.py
+   in the working tree of the omega repository.
+   Do not edit; regenerated on every check run.
+
+   Conventions as in PrefixGen.v (whose prelude is used).  A parsed tree is
+   a [pnode]: one constructor per node class, its arguments the attributes
+   the constructor stores.  `x.flatten(key=value, ..., *arg, **kw)` is
+   [rc_flatten fuel x kwargs]: dynamic dispatch on the class of x; keyword
+   arguments travel in a record of optional slots, each method takes its
+   named parameters out of it (default when absent, None = TypeError when a
+   required one is absent or a keyword is given twice) and keeps the rest as
+   its **kw; `*arg` is always empty (no call passes positional arguments).
+   The list passed as `mem` may be changed in place by the callee, so
+   rc_flatten returns, next to the result, the final value of the `mem`
+   entry it was given, and the caller re-binds its variable. *)
+From Coq Require Import ZArith List Bool String Ascii.
+From Omega Require Import L3History.Prefix.
+From OmegaGen Require Import PrefixGen.
+Import ListNotations.
+Open Scope Z_scope.
+
+"""
+
+SECTION_REC = r"""
+Section GenRec.
+(* the BDD manager as in PrefixGen.v; [ren_pairs m n u] stands for the block
+   of BDDNodes.Operator.flatten that pops a variable from the support of
+   each node of the memory m, pairs them up, asserts that there are n / 2
+   pairs (n cells in the buffer) and calls bdd.rename(u, pairs) *)
+Variable D : Type.
+Variable dtrue dfalse : D.
+Variable var : string -> option D.
+Variable node : Z -> option D.
+Variable ap1 : D -> option D.
+Variable ap2 : binop -> D -> D -> option D.
+Variable ren_pairs : list D -> Z -> D -> option D.
+
+Definition bdd_apply_nodes (op : string) (args : list D) : option D :=
+  bdd_apply D ap1 ap2 op (map (IVal D) args).
+
+(* keyword arguments of `flatten`: bdd (present or not), mem, same_mem *)
+Record kwargs := mkKw {
+  k_bdd : bool;
+  k_mem : option (option (list D));
+  k_same_mem : option bool }.
+Definition kw_set_mem (kw : kwargs) (m : option (option (list D))) : kwargs :=
+  mkKw (k_bdd kw) m (k_same_mem kw).
+Definition kw_is_empty (kw : kwargs) : bool :=
+  negb (k_bdd kw) && is_none (k_mem kw) && is_none (k_same_mem kw).
+
+"""
+
+FOOTER_REC = '\nEnd GenRec.\n'
+
+
+def file_text_rec(repo, gen_lib='OmegaGen'):
+    """(text of gen/PrefixRecGen.v, notes)."""
+    pnode, body, notes = translate_rec(repo)
+    text = (HEADER_REC.replace('OmegaGen', gen_lib)
+            + '(* ---- the node classes ---- *)\n' + pnode
+            + SECTION_REC + body + FOOTER_REC
+            + ''.join(f'(* note: {_comment(n)} *)\n' for n in notes))
+    return text, notes
+
+
 def file_text(repo):
     """(text of gen/PrefixGen.v, notes)."""
     body, table, notes = translate(repo)
@@ -1952,4 +2786,7 @@ def file_text(repo):
 
 if __name__ == '__main__':
     import sys
-    print(file_text(sys.argv[1] if len(sys.argv) > 1 else '/repo')[0])
+    if len(sys.argv) > 2 and sys.argv[2] == 'rec':
+        print(file_text_rec(sys.argv[1], *sys.argv[3:])[0])
+    else:
+        print(file_text(sys.argv[1] if len(sys.argv) > 1 else '/repo')[0])
